@@ -11,6 +11,11 @@ package lexer
 // the byte read() reports for source byte b (NUL is mapped to 0xff because 0 means end of input)
 //@ spec readByte(b byte) byte = b == 0 ? 255 : b
 
+// what read() reports at position i (0 at and beyond the end), hex digit value or -1
+//@ spec srcAt(lxr *Lexer, i int) byte = i < len(lxr.src) ? readByte(lxr.src[i]) : 0
+//@ spec hexVal(b byte) int = asciiDigitVal(b) < 16 ? asciiDigitVal(b) : -1
+//@ spec escValid(lxr *Lexer, p int) bool = srcAt(lxr, p) == 110 || srcAt(lxr, p) == 116 || srcAt(lxr, p) == 114 || srcAt(lxr, p) == 92 || srcAt(lxr, p) == 34 || srcAt(lxr, p) == 39 || (srcAt(lxr, p) == 120 && hexVal(srcAt(lxr, p + 1)) >= 0 && hexVal(srcAt(lxr, p + 2)) >= 0)
+
 //@ func (lxr *Lexer) read() (c)
 //@   requires lxr != nil && lxOK(lxr)
 //@   modifies lxr.si
@@ -29,6 +34,10 @@ package lexer
 //@   modifies lxr.si
 //@   ensures! pos: lxOK(lxr) && lxr.si >= old(lxr.si) && lxr.si <= old(lxr.si) + 3
 //@   ensures! plain: c != 92 ==> r == c && lxr.si == old(lxr.si)
+//@   ensures! control: c == 92 && (srcAt(lxr, old(lxr.si)) == 110 || srcAt(lxr, old(lxr.si)) == 116 || srcAt(lxr, old(lxr.si)) == 114) ==> lxr.si == old(lxr.si) + 1 && r == (srcAt(lxr, old(lxr.si)) == 110 ? 10 : srcAt(lxr, old(lxr.si)) == 116 ? 9 : 13)
+//@   ensures! quote: c == 92 && (srcAt(lxr, old(lxr.si)) == 92 || srcAt(lxr, old(lxr.si)) == 34 || srcAt(lxr, old(lxr.si)) == 39) ==> lxr.si == old(lxr.si) + 1 && r == srcAt(lxr, old(lxr.si))
+//@   ensures! hex: c == 92 && srcAt(lxr, old(lxr.si)) == 120 && hexVal(srcAt(lxr, old(lxr.si) + 1)) >= 0 && hexVal(srcAt(lxr, old(lxr.si) + 2)) >= 0 ==> lxr.si == old(lxr.si) + 3 && r == 16 * hexVal(srcAt(lxr, old(lxr.si) + 1)) + hexVal(srcAt(lxr, old(lxr.si) + 2))
+//@   ensures! invalid: c == 92 && !escValid(lxr, old(lxr.si)) ==> lxr.si == old(lxr.si) && r == 92
 
 // rawString: a back-quoted string is a String token only when the closing quote was found
 //@ func (lxr *Lexer) rawString(start) (r)
